@@ -30,6 +30,7 @@ structure Arr where
   len : Nat
   writeable : Bool
   base : Base
+  exact : Bool := true   -- class tag: the object is an exact `numpy.ndarray` (false: a subclass instance: memmap, matrix, user class)
   deriving Repr, DecidableEq, Inhabited
 
 structure Wrap where
@@ -97,6 +98,8 @@ inductive Op where
   | mkAdder (f : Nat)                        -- Adder(f)
   | applyOp (o x : Nat)                      -- op(x)
   | arrBase (a : Nat)                        -- a.base   (None for an array that owns its data)
+  | newSub (vals : List Int)                 -- a = an owning instance of an ndarray subclass (np.memmap, user subclass)
+  | asArray (a : Nat)                        -- np.asarray(a): `a` itself iff it is an exact ndarray, else a new base-class view of it
   deriving Repr, DecidableEq, Inhabited
 
 /-- effect record of one Python-level operation -/
@@ -152,12 +155,22 @@ def raise (e : Err) : Eff := { raised := some e }
 
 def bad : Eff := raise Err.badHandle
 
-/-- NumPy basic slice `a[lo:hi]` of ndarray object number `i` -/
-def sliceOf (i : Nat) (a : Arr) (lo hi : Nat) : Arr :=
+/-- NumPy basic slice `a[lo:hi]` of ndarray object number `i`.  `.base` chains are collapsed to the owner only within one class
+    (`collapse`: the base of `a` has the class of `a`); otherwise `.base` is `a` itself. -/
+def sliceOf (i : Nat) (a : Arr) (lo hi : Nat) (collapse : Bool := true) : Arr :=
   let lo' := min lo a.len
   let hi' := max lo' (min hi a.len)
   { buf := a.buf, off := a.off + lo', len := hi' - lo', writeable := a.writeable,
-    base := match a.base with | Base.owner => Base.view i | b => b }
+    base := match a.base with | Base.owner => Base.view i | b => if collapse then b else Base.view i,
+    exact := a.exact }     -- a slice has the class of its source
+
+/-- the base object of `a` (if it is a visible array) has the same class as `a` -/
+def sameClass (arrs : List Arr) (a : Arr) : Bool :=
+  match a.base with
+  | Base.view o => match arrs[o]? with
+    | some oo => oo.exact == a.exact
+    | none => true
+  | _ => true
 
 /-- NumPy broadcasting of two 1-D lengths -/
 def bcastLen (l1 l2 : Nat) : Option Nat :=
@@ -232,7 +245,7 @@ def eff (cfg : Cfg) (s : State) : Op → Eff
         ret := Ref.arr s.arrs.length }
   | .sliceArr a lo hi =>
       match s.arrs[a]? with
-      | some ao => { newArr := some (sliceOf a ao lo hi), ret := Ref.arr s.arrs.length }
+      | some ao => { newArr := some (sliceOf a ao lo hi (sameClass s.arrs ao)), ret := Ref.arr s.arrs.length }
       | none => bad
   | .writeArr a i v =>
       match s.arrs[a]? with
@@ -267,7 +280,7 @@ def eff (cfg : Cfg) (s : State) : Op → Eff
   | .wrapGetitem w lo hi =>
       match getWrapArr s w with
       | some (wo, ao) =>
-        { newArr := some (sliceOf wo.arr ao lo hi), newWrap := some { arr := s.arrs.length, writeable := true },
+        { newArr := some (sliceOf wo.arr ao lo hi (sameClass s.arrs ao)), newWrap := some { arr := s.arrs.length, writeable := true },
           ret := Ref.wrap s.wraps.length }
       | none => bad
   | .wrapSame w =>
@@ -396,6 +409,20 @@ def eff (cfg : Cfg) (s : State) : Op → Eff
       | some ao => match ao.base with
         | Base.view o => { ret := Ref.arr o }
         | _ => {}                                        -- owns its data: `.base is None`
+      | none => bad
+
+  | .newSub vals =>
+      { newBuf := some vals,
+        newArr := some { buf := s.bufs.length, off := 0, len := vals.length, writeable := true, base := Base.owner,
+                         exact := false },
+        ret := Ref.arr s.arrs.length }
+  | .asArray a =>
+      match s.arrs[a]? with
+      | some ao =>
+        if ao.exact then { ret := Ref.arr a }
+        else { newArr := some { buf := ao.buf, off := ao.off, len := ao.len, writeable := ao.writeable,
+                                base := Base.view a },   -- no collapse across classes: `.base` is the source itself
+               ret := Ref.arr s.arrs.length }
       | none => bad
 
 def step (cfg : Cfg) (s : State) (op : Op) : State := apply s (eff cfg s op)
